@@ -10,7 +10,11 @@
   Heap abstraction as everywhere: nodes and traits are named by id.  The endpoint lookup loop of the Go code
   (`for i := 0; i < len(gnome.Nodes) && (inNode == nil || outNode == nil); i++`) is modelled by `find?`; whichever
   object it ends with carries the id searched for.  A failed lookup would leave a nil endpoint in Go, which the
-  model cannot represent: it stops with `nilEndpoint` (`GoNeat.C01.newGenomeRand_error` proves this never happens).
+  model cannot represent: it stops with `nilEndpoint`.  This does not happen for any parameters (every row / column that
+  passes the guard is `≤ in+n` or `≥ firstOutput`, and those ids are all built) - not proved in Lean; the ops `genomeRand` /
+  `populationRandom` would report it as a correspondence failure ("model stops but impl succeeds").  Likewise `cm[count]`
+  is always in range (`drawMatrix_length`).  The theorems of Props/C01GenRand.lean, Props/C03GenRand.lean are statements
+  about the `ok` results.
 -/
 import GoNeat.Model.Epoch
 
